@@ -90,6 +90,8 @@ func (b *Batch) Add(pkg, variant string, d *Decorated) *Item {
 }
 
 // AddText generates a parser from a ready-made .y text (no harness actions).
+var staleOutput = []byte(strings.Repeat("}}}} stale content of an earlier generation {{{{ ) ( ] [\n", 900))
+
 func (b *Batch) AddText(pkg, variant, text string) *Item {
 	it := &Item{Pkg: pkg, Variant: variant, Text: text}
 	dir := filepath.Join(b.Dir, pkg)
@@ -100,6 +102,9 @@ func (b *Batch) AddText(pkg, variant, text string) *Item {
 		lang = "typescript"
 		it.File = filepath.Join(dir, "parser.ts")
 	}
+	// the output path is never fresh: a file from "an earlier generation" is already there, longer than
+	// most outputs and valid in neither target language (a generator that does not truncate shows)
+	os.WriteFile(it.File, staleOutput, 0o644)
 	res := ygo.Generate(lang, text, it.File, ygo.Options{Fuel: 50_000_000, Unpack: IsUnpack(variant), Object: IsObject(variant)})
 	it.Stdout = res.Stdout
 	if res.Err != nil || res.Panic != "" || res.Fuel {
